@@ -1,11 +1,13 @@
 import CqlVerif.Drv.LB
 import CqlVerif.Drv.Names
+import CqlVerif.Drv.Retry
 open CqlVerif.Drv
 
 def dispatch (stream op real : String) : Verdict :=
   match stream with
   | "lb" => LBStream.handle op real
   | "names" => NamesStream.handle op real
+  | "retry" => RetryStream.handle op real
   | _ => { kind := "diff", detail := s!"unknown stream {stream}" }
 
 partial def loop (h : IO.FS.Stream) (out : IO.FS.Stream) : IO Unit := do
